@@ -62,6 +62,62 @@ Example C05_wraparound_count_refused :
 Proof. vm_compute. split; reflexivity. Qed.
 
 
+(* ---- the fid attributes the rules consult are determined by the protocol history, not by incidental
+   behaviour of the framework: whether a fid is open and in which mode, and its type bits, follow from
+   the requests and the replies they got (ospec_step / tspec_step in Srv/SeqSpec.v are functions of the
+   request and the reply only) ---- *)
+Theorem C05_open_state_follows_history : forall cfg c t sc c' r ev,
+  CInv cfg c -> seq_step cfg c t sc = (c', r, ev) ->
+  veq (oabs (c_fids c')) (ospec_step (oabs (c_fids c)) t r).
+Proof. exact open_state_follows_history. Qed.
+Print Assumptions C05_open_state_follows_history.
+
+Theorem C05_open_state_follows_history_run : forall cfg h c c' out,
+  CInv cfg c -> seq_run cfg c h = (c', out) ->
+  length out = length h /\
+  veq (oabs (c_fids c')) (ospec_run (oabs (c_fids c)) (combine (map fst h) (map fst out))).
+Proof. exact open_state_follows_history_run. Qed.
+Print Assumptions C05_open_state_follows_history_run.
+
+Theorem C05_fid_type_follows_history_run : forall cfg h c c' out,
+  CInv cfg c -> seq_run cfg c h = (c', out) ->
+  length out = length h /\
+  veq (tabs (c_fids c')) (tspec_run (tabs (c_fids c)) (combine (map fst h) (map fst out))).
+Proof. exact fid_type_follows_history_run. Qed.
+Print Assumptions C05_fid_type_follows_history_run.
+
+(* a request answered with an error (other than Tremove) changes neither the fid set nor the open state nor the type of any fid *)
+Theorem C05_error_changes_no_attribute : forall cfg c t sc c' r ev,
+  CInv cfg c -> seq_step cfg c t sc = (c', r, ev) ->
+  is_rerror r = true -> (forall fid, t <> Tremove_ fid) ->
+  veq (abs (c_fids c')) (abs (c_fids c)) /\
+  veq (oabs (c_fids c')) (oabs (c_fids c)) /\
+  veq (tabs (c_fids c')) (tabs (c_fids c)).
+Proof. exact error_changes_no_attribute. Qed.
+Print Assumptions C05_error_changes_no_attribute.
+
+(* opening an open fid: refused, nothing forwarded, and the fid STAYS open (the defect repaired by 07e052e: it was closed) *)
+Theorem C05_second_open_refused : forall cfg c fid mode fr sc c' r ev,
+  CInv cfg c -> fget (c_fids c) fid = Some fr -> f_opened fr = true ->
+  seq_step cfg c (Topen_ fid mode) sc = (c', r, ev) ->
+  is_rerror r = true /\ forwarded ev = false /\
+  veq (oabs (c_fids c')) (oabs (c_fids c)) /\ veq (tabs (c_fids c')) (tabs (c_fids c)).
+Proof. exact second_open_refused. Qed.
+Print Assumptions C05_second_open_refused.
+
+(* Non-vacuity, and the three repaired defects as concrete histories: a refused second Topen leaves the fid open
+   (a write through it is still forwarded, a walk from it still refused); a fid opened OEXEC is not open for writing *)
+Example C05_open_state_examples :
+  let cfg := start_cfg 8192 true false in
+  let q := mkQid 0 0 7 in
+  let c := mkConn 8192 true [(1, mkFid 1 true 2 0 5 0); (2, mkFid 1 true 3 0 5 0)] in
+  let '(c1, r1, ev1) := seq_step cfg c (Topen_ 1 0) (mkScript (AOk (Ropen_ q 0)) None) in
+  is_rerror r1 = true /\ forwarded ev1 = false /\
+  forwarded (snd (seq_step cfg c1 (Twrite_ 1 0 [1%N]) (mkScript (AOk (Rwrite_ 1)) None))) = true /\
+  forwarded (snd (seq_step cfg c1 (Twalk_ 1 3 []) (mkScript (AOk (Rwalk_ [])) None))) = false /\
+  forwarded (snd (seq_step cfg c1 (Twrite_ 2 0 [1%N]) (mkScript (AOk (Rwrite_ 1)) None))) = false.
+Proof. vm_compute. repeat split; reflexivity. Qed.
+
 (* ---- a modelling assumption about the shape of the CURRENT source (Gen/Shape.v), re-checked on every run ---- *)
 (* every refusal of walk / open / create precedes the change of the fid table or of the fid (a refused request leaves no state behind) *)
 Theorem C05_source_handlers_check_before_they_change : ShapeLib.handlers_check_before_they_change = true.
